@@ -13,6 +13,7 @@ type Outcome struct {
 	Aborted string
 	Units   []*Unit
 	Used    []DecUse
+	assigned []FieldAssign
 }
 
 // EvalAll walks fn under every assignment of the decisions that fix leaves
@@ -41,7 +42,7 @@ func (w *Walker) EvalAll(fn *types.Func, fix func(dk, c string) (int, bool), inl
 				problems = append(problems, p)
 			}
 		}
-		outs = append(outs, Outcome{Dec: copyDec(n.dec), Result: r.Result, Aborted: r.Aborted, Units: r.Units, Used: r.Used})
+		outs = append(outs, Outcome{Dec: copyDec(n.dec), Result: r.Result, Aborted: r.Aborted, Units: r.Units, Used: r.Used, assigned: r.Assigned})
 		for j := len(r.Used) - 1; j > n.last; j-- {
 			u := r.Used[j]
 			if _, set := n.dec[u.Key]; set {
